@@ -432,7 +432,7 @@ int main(int argc,char **argv){
          the (decorrelated, own rate) combination is already an ordinary item */
       g_items=realloc(g_items,sizeof(long)*NCFG*17);
       for(i=0;i<NCFG;i++){ cfg_t c; int sk,rx; cfg_decode(i,&c); if(!cfg_in_set(&c,cfgset)||c.ch!=2||!c.dtx) continue;
-         for(rx=0;rx<4;rx++) for(sk=0;sk<4;sk++){ if(rx&&c.ri!=0) continue; if(!rx&&!sk) continue; g_items[g_nitems++]=i+(long)NCFG*(sk+4*rx); } }
+         for(rx=0;rx<4;rx++) for(sk=0;sk<4;sk++){ if(rx&&c.ri!=0) continue; if(!rx&&!sk) continue; if(rx&&!MC.tier&&(sk==1||sk==3)) continue; /* quick: low rates only with the two signal kinds whose mid-only decision depends on the rate */ g_items[g_nitems++]=i+(long)NCFG*(sk+4*rx); } }
    }
    mc_par(g_nitems,sched_item,NULL);
    *c_eval = g_mode? *c_dec : *c_sched;
